@@ -11,14 +11,23 @@ import (
 // variadicElems returns the element values of a slice value built in the same function:
 // slice literal / variadic pack (Alloc array + stores + Slice), make + indexed stores, append chains.
 func variadicElems(v ssa.Value) ([]ssa.Value, bool) {
+	return variadicElemsRec(v, map[ssa.Value]bool{})
+}
+
+func variadicElemsRec(v ssa.Value, seen map[ssa.Value]bool) ([]ssa.Value, bool) {
 	v = strip(v)
+	if seen[v] {
+		// loop-carried slice (x = append(x, …) inside a loop): the elements of the cycle are collected once
+		return nil, true
+	}
+	seen[v] = true
 	switch x := v.(type) {
 	case *ssa.Slice:
 		base := strip(x.X)
 		if a, ok := base.(*ssa.Alloc); ok {
 			return storesIntoIndexed(a), true
 		}
-		return variadicElems(x.X)
+		return variadicElemsRec(x.X, seen)
 	case *ssa.MakeSlice:
 		return storesIntoIndexed(x), true
 	case *ssa.Const:
@@ -27,8 +36,8 @@ func variadicElems(v ssa.Value) ([]ssa.Value, bool) {
 		}
 	case *ssa.Call:
 		if builtinName(x) == "append" {
-			first, ok1 := variadicElems(x.Call.Args[0])
-			rest, ok2 := variadicElems(x.Call.Args[1])
+			first, ok1 := variadicElemsRec(x.Call.Args[0], seen)
+			rest, ok2 := variadicElemsRec(x.Call.Args[1], seen)
 			return append(first, rest...), ok1 && ok2
 		}
 	case *ssa.Phi:
@@ -38,7 +47,7 @@ func variadicElems(v ssa.Value) ([]ssa.Value, bool) {
 			if e == v {
 				continue
 			}
-			el, o := variadicElems(e)
+			el, o := variadicElemsRec(e, seen)
 			out = append(out, el...)
 			ok = ok && o
 		}
